@@ -328,7 +328,7 @@ def vector_vortex_retarder(charge, theta, retardance=np.pi, rotate=0):
     vvr_rhs = _empty_jones(shape=shape)
 
     # precompute retardance
-    theta *= charge
+    theta = theta * charge  # not in place: theta is the caller's array
     cost = np.cos(theta)
     sint = np.sin(theta)
     jcosr = -1j*np.cos(retardance/2)
